@@ -26,6 +26,9 @@ typedef uint32_t XMLUInt32;
 /* must-fail reachability marker (DESIGN 3.6): never changes state */
 #define XV_REACH(tag) __CPROVER_assert(0, "XV_REACH " tag)
 
+/* a nondeterministic _Bool in CBMC may hold any byte value: harnesses normalise with this */
+#define XV_BOOL(b) ((b) ? true : false)
+
 /* in-code asserts are kept as proof obligations (R11) */
 #undef assert
 #define assert(e) __CPROVER_assert((e), "in-code assert: " #e)
